@@ -74,6 +74,9 @@ def run_property(prop, tier, scratch, configs=None, repo=None, quiet=False):
             st["functions"] = max(st["functions"], len(res.functions))
             if not st["samples"]:
                 st["samples"] = res.samples
+            for nt in getattr(res, "notes", []):
+                if nt not in st.setdefault("notes", []):
+                    st["notes"].append(nt)
             floor = rdef.get("floor", 0)
             if "alloc" in c and rdef.get("floor_no_alloc") is not None:
                 floor = rdef["floor_no_alloc"]
@@ -135,7 +138,8 @@ def write_evidence(prop, tier, findings, known_hits, violations, stats, wall, ex
             samples.append({"rule": rname, "instance": s})
         rules_out.append({"rule": rname, "template": st.get("template", ""), "instances_per_config": inst,
                           "discharged_per_config": st.get("discharged", {}), "floor": st.get("floor", 0),
-                          "functions_analysed": st.get("functions", 0), **({"probe": st["probe"]} if "probe" in st else {})})
+                          "functions_analysed": st.get("functions", 0), **({"probe": st["probe"]} if "probe" in st else {}),
+                          **({"undecided_or_generic_only": st["notes"]} if st.get("notes") else {})})
     ev = {
         "property_id": prop,
         "tier": tier,
